@@ -96,6 +96,11 @@ TraceNext ==
          [] r.ev = "racedrop" ->
               /\ UNCHANGED <<vars, sid, hid, bad6, f2, drift>>
               /\ bad5' = (IF r.closes = r.rounds /\ r.dup = 0 /\ r.missing = 0 /\ r.panics = 0 /\ ~("panic" \in DOMAIN r) THEN bad5 ELSE Append(bad5, l + 1))
+         \* user code panicked (caught) while it held a span's extensions; the span closed and later spans reused its slot:
+         \* nothing of it - stale data, a poisoned lock - may be visible to them
+         [] r.ev = "poison" ->
+              /\ UNCHANGED <<vars, sid, hid, bad6, f2, drift>>
+              /\ bad5' = (IF r.poisoned = r.rounds /\ r.panics = 0 /\ r.stale = 0 THEN bad5 ELSE Append(bad5, l + 1))
          [] r.ev = "crash" -> UNCHANGED <<vars, sid, hid>> /\ bad5' = Append(bad5, l + 1) /\ bad6' = Append(bad6, l + 1) /\ UNCHANGED <<f2, drift>>
          \* after an F2 hazard the real registries may be corrupted, and after a first disagreement the
          \* model no longer tracks the implementation: the rest of that history is not judged
